@@ -46,7 +46,7 @@ MANIFEST = dict(
 )
 NS = "Xmp.PathSafe."
 REQUIRED = [NS + t for t in (
-    "C10_sanitised", "C10_confined", "C10_slash_never_matches", "C10_no_dir_no_open", "C10_dirbase",
+    "C10_sanitised", "C10_sanitised_one_colon", "C10_confined", "C10_slash_never_matches", "C10_no_dir_no_open", "C10_dirbase",
     "C10_companion_flt_partial", "C10_companion_flt_full", "C10_companion_flt_counterexample", "C10_companion_mfp", "C10_companion_none", "C10_exec", "C10_exec_only_for_paths",
     "C10_argv_single_argument", "C10_sites_guarded", "C10_fields_guarded", "C10_argv_tie")]
 
@@ -72,7 +72,7 @@ def names_correspondence(ck):
     exe = vlib.build_harness("c10_names", ["c10_names.c"])
     quick = ck.tier == "quick"
     nshards = 16
-    per = 1500 if quick else 40000
+    per = 1500 if quick else 120000
     base = scratch_dir(ck, "names")
     shards = [(exe, ck.seed * 104729 + i, per, os.path.join(base, "s%d" % i)) for i in range(nshards)]
     results = vlib.pmap(run_names_shard, shards)
